@@ -180,7 +180,7 @@ META["C15"] = M(
     floors={"quick": {"evals": 3000, "distinct": 300}, "thorough": {"evals": 60000, "distinct": 4000}},
     required=["shapes", "first-column", "H-upper-hessenberg-nonneg-subdiagonal", "arnoldi-relation", "orthonormal-basis",
               "padding-is-zero", "beyond-n-equals-n-steps", "full-run-gives-spectrum", "no-eigenpairs-from-padding",
-              "eigenvalues-exact-after-breakdown"],
+              "eigenvalues-exact-after-breakdown", "zero-after-the-steps-run", "early-stop-is-a-breakdown"],
     rule="square operators V diag(l) V^-1 (real with conjugate pairs / complex, normal and non-normal, n 1..40 (200 in "
          "thorough), kappa<=1e2), start vectors generic / in a 1- or few-dimensional invariant subspace (breakdown) / default "
          "(keyed) / batched, max_iters 1..n+10 and the defaults, tol 1e-12..1e-5, through arnoldi(), Arnoldi()(A) and "
